@@ -23,7 +23,7 @@ NAME_CLASSES = {
     'opword': ('AND', 'NOT', 'SUM', 'EQUALS', 'OR', 'XOR', 'IMPLIES', 'REQUIRES', 'EXCLUDES', 'EQUIVALENCE', 'ADD', 'LEN'),
     'nonascii': ('ñu', '日本', 'ä', 'Ünï'),
     'xml': ('a<b', 'a&b', 'a"b', 'a>b'),
-    'json': ('a\\b', 'a"b', 'a\tb', 'a\\"b'),
+    'json': ('a\\b', 'a"b', 'a\tb', 'a\\"b', 'C:\\Program\\x64', 'a\\x09b', 'a\\n', 'a\\u0041b', 'a&#10;b', 'a&amp;b', '%41b'),
     'dotted': ('a.b', 'a.b.c', 'a b.c d', 'v1.0-beta', '.ab', 'ab.'),
     'quote-edge': ('"ab"', "'ab'", '"', 'a"'),
     'nl': ('a\nb',),
@@ -41,7 +41,10 @@ ATTR_VALUES = (None, True, False, 0, 1, 1.0, 0.0, 7, -3, 2.5, -0.25, 100.0, 'x',
                2 ** 53 + 1, 2 ** 63 - 1, -9007199254740993, '90071992547409931234', '-18446744073709551617', '4711', '007', '1e5', 'true', 'null',
                'x' * 300, [1, 2, 3, 4, 5, 6, 7, 8, 9, 10, 11, 12], {'k%d' % i: i for i in range(12)},
                'a\r\nb', '\r', 'a\rb', 'a\nb', '\n', 'tab\there', {'abstract': True, 'owner': 'core'}, [{'abstract': True}],
-               {'meta': {'abstract': 'yes', 'name': 'n', 'type': 't'}}, '10', '-3', '2.50')
+               {'meta': {'abstract': 'yes', 'name': 'n', 'type': 't'}}, '10', '-3', '2.50',
+               [[0, 0, 0], [0, 0, 0]], {'a': [1, 2], 'b': [1, 2]}, [{'k': 1}, {'k': 1}],
+               [{'name': 'timeout', 'value': 30}, {'name': 'x', 'value': 1}], {'m': [{'name': 'a', 'value': 1}]}, {'name': 'n', 'value': 2},
+               {}, [[]], [[], []], {'k': {}}, {'k': []}, [{}], [0], [False], {'k': None}, [1.0], {'k': 0.0})
 
 # attribute names that coincide with keys / keywords the formats use for something else
 ATTR_NAME_DEVS = (('abstract', True), ('abstract', None), ('abstract', 'summary of the paper'), ('abstract', False), ('Abstract', True),
@@ -222,6 +225,9 @@ def roundtrip(fmt, model, cycles=2):
         out.append(Fail('read-raises:%s' % type(exc).__name__, str(exc)[:200]))
         return out
     compare(fmt, model, ob1, out)
+    probs = bd.wellformed(fm1)
+    if probs:
+        out.append(Fail('readback-not-wellformed', probs[:4]))
     if any(f.clause == 'names' for f in out):
         return out      # later generations would only repeat the same loss
     fmt.extra_checks(model, fm0, t0, p0, out)
@@ -497,6 +503,28 @@ def canon_order(model):
     def rec(f):
         return (f[0], tuple((a, b, tuple(rec(k) for k in kids)) for (a, b, kids) in f[1]))
     return rec(model[0])
+
+
+def fully_decorated(fields, values=(7, 'txt', True, 2.5, [1, 'a'], {'k': 1})):
+    """Carriers of <= 3 features on which EVERY feature carries every decoration the format has a
+    notation for at once (abstract flag, type, feature cardinality, two attributes), in every
+    combination of which decorations are switched on."""
+    out = []
+    for m in sp.structures_upto(3):
+        for mask in range(1, 16):
+            def deco(f, idx=[0]):
+                idx[0] += 1
+                i = idx[0]
+                abstract = bool(mask & 1) and 'abstract' in fields
+                ftype = FTYPES[i % 3] if (mask & 2) and 'ftype' in fields else 'Boolean'
+                fcard = FCARDS[i % len(FCARDS)] if (mask & 4) and 'fcard' in fields else (1, 1)
+                attrs = ((('a%d' % i, sh.freeze(values[i % len(values)])), ('b', sh.freeze(values[(i + 1) % len(values)])))
+                         if (mask & 8) and 'attrs' in fields else ())
+                return (f[0], tuple((a, b, tuple(deco(k) for k in kids)) for (a, b, kids) in f[1]), abstract, ftype, tuple(fcard), attrs)
+            mm = (deco(m[0]), ())
+            if mm not in out and mm != m:
+                out.append(mm)
+    return out
 
 
 def align_models(tier):
